@@ -194,3 +194,108 @@ func InSet(fn *ssa.Function, set map[*ssa.Function]bool) bool {
 	}
 	return set[TopFunc(fn)]
 }
+
+// Implementers returns the SSA functions implementing interface method m for
+// every named (non-interface) type declared in the repository.
+func (p *Prog) Implementers(m *types.Func) []*ssa.Function {
+	recv := m.Type().(*types.Signature).Recv()
+	if recv == nil {
+		return nil
+	}
+	iface, ok := recv.Type().Underlying().(*types.Interface)
+	if !ok {
+		return nil
+	}
+	var out []*ssa.Function
+	for _, pk := range p.Pkgs {
+		scope := pk.Types.Scope()
+		for _, name := range scope.Names() {
+			tn, ok := scope.Lookup(name).(*types.TypeName)
+			if !ok || tn.IsAlias() {
+				continue
+			}
+			t := tn.Type()
+			if _, isI := t.Underlying().(*types.Interface); isI {
+				continue
+			}
+			if nt, ok := t.(*types.Named); ok && nt.TypeParams().Len() > 0 {
+				continue
+			}
+			for _, rt := range []types.Type{t, types.NewPointer(t)} {
+				if !types.Implements(rt, iface) {
+					continue
+				}
+				sel := p.SSA.MethodSets.MethodSet(rt).Lookup(m.Pkg(), m.Name())
+				if sel == nil {
+					continue
+				}
+				if f := p.SSA.MethodValue(sel); f != nil {
+					if f.Synthetic != "" {
+						if mo, ok := sel.Obj().(*types.Func); ok {
+							if d := p.SSA.FuncValue(mo); d != nil {
+								f = d
+							}
+						}
+					}
+					out = append(out, f)
+				}
+				break
+			}
+		}
+	}
+	return out
+}
+
+// AlwaysNilError reports whether the call can only return a nil error: its
+// static callee, or every repository implementation of the invoked interface
+// method (at least one, none in test-support packages excluded), returns the
+// constant nil on every path.
+func (p *Prog) AlwaysNilError(c *ssa.CallCommon) bool {
+	var fns []*ssa.Function
+	if c.IsInvoke() {
+		fns = p.Implementers(c.Method)
+	} else if f := c.StaticCallee(); f != nil {
+		fns = []*ssa.Function{f}
+	}
+	if len(fns) == 0 {
+		return false
+	}
+	for _, f := range fns {
+		if f.Blocks == nil {
+			return false
+		}
+		ei := ErrIndex(f)
+		if ei < 0 {
+			return false
+		}
+		ok := true
+		Instrs(f, func(in ssa.Instruction) {
+			if r, isR := in.(*ssa.Return); isR {
+				if ei >= len(r.Results) || !IsNilConst(r.Results[ei]) {
+					ok = false
+				}
+			}
+		})
+		if !ok {
+			return false
+		}
+	}
+	return true
+}
+
+// InfeasibleErrorEdges returns the non-nil edges of error tests in fn whose
+// tested value comes from a call that can only return nil (AlwaysNilError).
+func (p *Prog) InfeasibleErrorEdges(fn *ssa.Function) map[Edge]bool {
+	g := GErrNil("always-nil", func(c *ssa.CallCommon) bool { return p.AlwaysNilError(c) })
+	pass, sites := g.PassEdges(fn)
+	out := map[Edge]bool{}
+	for _, s := range sites {
+		for si := range s.Block().Succs {
+			e := Edge{From: s.Block(), Succ: si}
+			if !pass[e] {
+				out[e] = true
+			}
+		}
+	}
+	return out
+}
